@@ -143,7 +143,19 @@ class Srv6SidInformation:
 
     def json(self, compact: bool | None = None) -> str:
         s: str = '{{ "sid": "{}", "flags": 0, "endpoint_behavior": {}'.format(str(self.sid), self.behavior)
-        content: str = ', '.join(subsubtlv.json() for subsubtlv in self.subsubtlvs)
+        # a known sub-sub-TLV renders as a member ("structure": {...}), an unknown one as an object: the unknown
+        # ones go in a list of their own (they made the record invalid JSON), a repeated member is given once
+        members: list[str] = []
+        unknown: list[str] = []
+        for subsubtlv in self.subsubtlvs:
+            rendered = subsubtlv.json()
+            if isinstance(subsubtlv, GenericSrv6ServiceDataSubSubTlv):
+                unknown.append(rendered)
+            elif rendered.split(':', 1)[0] not in [m.split(':', 1)[0] for m in members]:
+                members.append(rendered)
+        if unknown:
+            members.append('"unknown": [ {} ]'.format(', '.join(unknown)))
+        content: str = ', '.join(members)
         if content:
             s += ', {}'.format(content)
         s += ' }'
